@@ -14,8 +14,9 @@ MATCHERS = {}
 def regen_leaves():
     """CmGen/Leaves.lean: the numeric functions and constants of the source as they read now (the `source_*`
     theorems of CmProps/C05tie.lean identify them with the model)"""
-    from translate import leaves
+    from translate import leaves, api
     leaves.generate()
+    api.generate()              # CmGen/Api.lean: ColorPair.is_readable as it reads now (CmProps/C05api.lean)
 LABEL = {"AAA": "Very Readable", "AA": "Readable", "FAIL": "Not Readable"}
 
 
@@ -26,6 +27,8 @@ def spec_level(ratio, large):
 
 def check(run):
     run.proof = proof_status("C05", regenerate=regen_leaves)
+    from translate import api as _api
+    run.extra["source_translation_api"] = _api.summary()
     from translate import leaves as _leaves
     run.extra["source_translation"] = _leaves.summary()
     q = run.quick()
